@@ -69,7 +69,7 @@ type Case struct {
 	NoExclude bool `json:"no_exclude,omitempty"`
 }
 
-// the shared tree: token files (append-only, checked), a movable file and a movable directory
+// the shared tree: token files (fixed per-worker slots, checked), a movable file and a movable directory
 var filePaths = []string{"/f0", "/d/f1", "/d/f2"}
 
 const (
